@@ -122,7 +122,7 @@ class Work:
     # replay of real executions on the transition-system models (driver area evtrace)
     EVINST_FILES = [
         "queue/concurrent_array_blocking_queue.go", "queue/concurrent_linked_blocking_queue.go", "queue/delay_queue.go",
-        "queue/concurrent_linked_queue.go", "syncx/limit_pool.go", "syncx/segment_key_lock.go",
+        "queue/concurrent_linked_queue.go", "syncx/limit_pool.go", "syncx/segment_key_lock.go", "syncx/cond.go",
     ]
 
     def evinst_repo(self):
